@@ -1,7 +1,11 @@
 #!/usr/bin/env bash
-# usage: mutate.sh <file-in-repo> <old> <new> <check id> [tier]   — applies a one-off textual mutant to /repo, runs a check, restores
+# usage: mutate.sh <file-in-repo> <old> <new> <check id> [tier]
+# applies a one-off textual mutant to a scratch worktree of /repo (never /repo itself), runs a check against it, reports
 f="$1"; old="$2"; new="$3"; id="$4"; tier="${5:-quick}"
-cd /repo || exit 9
+W=/tmp/mut-repo
+if [ ! -d "$W" ]; then git -C /repo worktree add -q --detach "$W" HEAD || exit 9; fi
+git -C "$W" checkout -q --detach "$(git -C /repo rev-parse HEAD)" && git -C "$W" checkout -q -- . || exit 9
+cd "$W" || exit 9
 python3 - "$f" "$old" "$new" <<'PY' || { echo "MUTATE: pattern not found"; exit 9; }
 import sys
 p,a,b=sys.argv[1:4]
@@ -9,7 +13,8 @@ s=open(p).read()
 if a not in s: sys.exit(1)
 open(p,'w').write(s.replace(a,b,1))
 PY
-out=$(cd /verif && VERIF_ROOT=/tmp/verif-mut ./check "$id" "$tier" 2>&1); rc=$?
-git -C /repo checkout -- "$f"
-echo "$out" | grep -E "^(VIOLATION|ERROR|INCONCLUSIVE|VERDICT|KNOWN|  signature)" | head -8
+mkdir -p /tmp/verif-mut; cp /verif/known_findings.json /tmp/verif-mut/
+out=$(cd /verif && VERIF_REPO="$W" VERIF_ROOT=/tmp/verif-mut VERIF_BIN=/tmp/verif-mut/bin ./check "$id" "$tier" 2>&1); rc=$?
+git -C "$W" checkout -q -- .
+echo "$out" | grep -E "^(VIOLATION|ERROR|INCONCLUSIVE|VERDICT|KNOWN|  signature)" | head -6
 echo "exit=$rc"
